@@ -86,6 +86,8 @@ def bad_series(y, fault):
         idx = list(y.index)
         idx[0], idx[-1] = idx[-1], idx[0]
         return pd.Series(y.to_numpy(), index=pd.Index(idx, dtype="int64"))
+    if fault == "reversed_range":
+        return pd.Series(y.to_numpy(), index=pd.RangeIndex(int(y.index[-1]), int(y.index[0]) - 1, -1))
     if fault == "empty":
         return y.iloc[:0]
     if fault == "dataframe":
@@ -411,7 +413,7 @@ def cases(draw, pair):
     if pair == "series_fault":
         c["where"] = draw(st.sampled_from(["fit", "fit", "update", "evaluate", "tuner"]))
         c["forecaster"] = draw(st.sampled_from(sorted(FORECASTERS)))
-        c["fault"] = draw(st.sampled_from(["unsorted", "empty", "dataframe", "ndarray"]))
+        c["fault"] = draw(st.sampled_from(["unsorted", "reversed_range", "empty", "dataframe", "ndarray"]))
     elif pair == "x_index":
         c["forecaster"] = draw(st.sampled_from(["naive", "recursive", "direct", "multioutput", "ensemble", "multiplex", "expsmooth"]))
     elif pair == "fh_fault":
